@@ -33,6 +33,9 @@ func scenarioFromCfg(cfg map[string]any) *scenario {
 		sc.Clients[c] = tracelog.Str(h)
 		sc.Hosts[tracelog.Str(h)] = map[string]string{"name": tracelog.Str(h)}
 	}
+	if len(sc.Hosts) == len(sc.Clients) {
+		sc.Mode = "seq" // one client per host: the per-host block cap is guaranteed (P_IPAM checks it in this mode)
+	}
 	if cfg["twopools"] == true && nb == 2 {
 		sc.Pools = []pool{{Name: "p1", CIDR: blockCIDR(1, bits), BlockSz: 32 - bits, Uses: []string{"Workload"}},
 			{Name: "p2", CIDR: blockCIDR(2, bits), BlockSz: 32 - bits, Uses: []string{"Workload"}, NodeSel: "name == 'h2'"}}
